@@ -238,6 +238,10 @@ static void fold_norm(void) {
             if (bos) { d = mkdest(64); CASE(fn, m ? "dmax-above-object-size|NFC" : "dmax-above-object-size|NFD", RT_ERRNO, EOVERFLOW, NULL, 0, 4, _wcsnorm_s_chk(d, 17, OKS, mode, &len, 64)); }
             d = mkdest(64); CASE(fn, m ? "code-point-above-10FFFF|NFC" : "code-point-above-10FFFF|NFD", RT_ERRNO, ESLEMAX, d, 64, 4, _wcsnorm_s_chk(d, 16, HIGH, mode, &len, B));
             d = mkdest(64); CASE(fn, m ? "code-point-7FFFFFFF|NFC" : "code-point-7FFFFFFF|NFD", RT_ERRNO, ESLEMAX, d, 64, 4, _wcsnorm_s_chk(d, 16, HIGH2, mode, &len, B));
+            /* the same with the source above dest in memory (the library has one copy loop per operand order) */
+            { wchar_t *hs = place_end(1, sizeof HIGH); memcpy(hs, HIGH, sizeof HIGH); d = mkdest(64); CASE(fn, m ? "code-point-above-10FFFF|src-above-dest|NFC" : "code-point-above-10FFFF|src-above-dest|NFD", RT_ERRNO, ESLEMAX, d, 64, 4, _wcsnorm_s_chk(d, 16, hs, mode, &len, B)); }
+            { wchar_t *hs = place_end(0, sizeof HIGH2); memcpy(hs, HIGH2, sizeof HIGH2); wchar_t *d1 = place_end(1, 64); memset((uint8_t *)d1 - 32, CANARY, 32); for (size_t i = 0; i < 64; i++) ((uint8_t *)d1)[i] = (uint8_t)(0x61 + i % 23);
+              CASE(fn, m ? "code-point-7FFFFFFF|src-below-dest|NFC" : "code-point-7FFFFFFF|src-below-dest|NFD", RT_ERRNO, ESLEMAX, d1, 64, 4, _wcsnorm_s_chk(d1, 16, hs, mode, &len, B)); }
             d = mkdest(64); CASE(fn, m ? "result-does-not-fit|NFC" : "result-does-not-fit|NFD", RT_ERRNO, ESNOSPC, d, 64, 4, _wcsnorm_s_chk(d, 16, L"ÅÅÅÅÅÅÅÅÅÅ", mode, &len, B));
             d = mkdest(64); wmemcpy(d, L"abÅcdef", 8); CASE(fn, m ? "src-inside-dest|NFC" : "src-inside-dest|NFD", RT_ERRNO, ESOVRLP, d, 64, 4, _wcsnorm_s_chk(d, 16, d + 1, mode, &len, B));
         }
@@ -245,6 +249,8 @@ static void fold_norm(void) {
         d = mkdest(64); CASE("wcsnorm_decompose_s", bos ? "src-null|bos" : "src-null", RT_ERRNO, ESNULLP, d, 64, 4, _wcsnorm_decompose_s_chk(d, 16, ns, &len, false, B));
         CASE("wcsnorm_decompose_s", bos ? "dest-null|bos" : "dest-null", RT_ERRNO, ESNULLP, NULL, 0, 4, _wcsnorm_decompose_s_chk(nd, 16, OKS, &len, false, BOS_UNKNOWN));
         d = mkdest(64); CASE("wcsnorm_decompose_s", bos ? "code-point-above-10FFFF|bos" : "code-point-above-10FFFF", RT_ERRNO, ESLEMAX, d, 64, 4, _wcsnorm_decompose_s_chk(d, 16, HIGH, &len, false, B));
+        { wchar_t *hs = place_end(1, sizeof HIGH); memcpy(hs, HIGH, sizeof HIGH); d = mkdest(64); CASE("wcsnorm_decompose_s", bos ? "code-point-above-10FFFF|src-above-dest|bos" : "code-point-above-10FFFF|src-above-dest", RT_ERRNO, ESLEMAX, d, 64, 4, _wcsnorm_decompose_s_chk(d, 16, hs, &len, false, B)); }
+        { wchar_t *hs = place_end(1, sizeof HIGH); memcpy(hs, HIGH, sizeof HIGH); d = mkdest(64); CASE("wcsfc_s", bos ? "code-point-above-10FFFF|src-above-dest|bos" : "code-point-above-10FFFF|src-above-dest", RT_ERRNO, ESLEMAX, d, 64, 4, _wcsfc_s_chk(d, 16, hs, &len, B)); }
         d = mkdest(64); CASE("wcsnorm_reorder_s", bos ? "src-null|bos" : "src-null", RT_ERRNO, ESNULLP, d, 64, 4, _wcsnorm_reorder_s_chk(d, 16, ns, 3, B));
         CASE("wcsnorm_reorder_s", bos ? "dest-null|bos" : "dest-null", RT_ERRNO, ESNULLP, NULL, 0, 4, _wcsnorm_reorder_s_chk(nd, 16, OKS, 3, BOS_UNKNOWN));
         d = mkdest(64); CASE("wcsnorm_reorder_s", bos ? "dmax-above-limit|bos" : "dmax-above-limit", RT_ERRNO, bos ? 0 : ESLEMAX, NULL, 0, 4, _wcsnorm_reorder_s_chk(d, RSIZE_MAX_WSTR + 1, OKS, 3, B));
